@@ -196,6 +196,43 @@ def run_case(case, work, rec):
             else:
                 nt = comps != list(range(len(names))) or L < finest or layout_nt
                 rec.ok(key, nt)
+    # a selection that names one variable twice (`-v temp density temp`): the statement does not say what the repeat
+    # means - the field twice, or once - and either reading is accepted, as is a refusal; but a refusal that comes only
+    # after the level directories were written (an output without Header left behind) is none of them
+    if len(names) >= 2 and "asset" not in case:
+        a, b = rng.sample(list(names), 2)
+        sel = [a, b, a]
+        out = os.path.join(work, "out_repeat")
+        key = (digest, "repeat", tuple(sel))
+        descr = f"variables={sel} (one variable named twice) limit_level=None"
+        pools.CTL.reset(mode="inproc", seed=rng.randrange(10 ** 6))
+        try:
+            Colander(plotfile=path, limit_level=None, output=out, variables=sel).strain()
+            raised = None
+        except Exception as e:
+            raised = e
+        rec.count("selections_naming_a_variable_twice")
+        if raised is not None:
+            left = sorted(os.listdir(out)) if os.path.isdir(out) else []
+            if left:
+                rec.violation(f"a selection naming a variable twice was refused ({type(raised).__name__}) only after the output "
+                              f"had been written: {left[:4]} left at the requested path: {descr}", key=key,
+                              witness={"selection": sel, "exc": repr(raised)[:300], "left": left[:10]})
+            else:
+                rec.skip("a selection naming a variable twice was refused")
+        else:
+            ia, ib = names.index(a), names.index(b)
+            readings = []
+            for comps in ([ia, ib, ia], [ia, ib]):
+                try:
+                    readings.append(refmodel.compare(out, refmodel.select(full, comps, limit=None)))
+                except Exception as e:
+                    readings.append([f"not comparable: {type(e).__name__}: {e}"])
+            if all(readings):
+                rec.violation(f"strained plotfile is neither reading of a repeated selection ({readings[0][0][:100]}): {descr}",
+                              key=key, witness={"selection": sel, "with_the_repeat": readings[0][:3], "without": readings[1][:3]})
+            else:
+                rec.ok(key, True)
     for k, v in _calls.items():
         rec.count("fn:" + k, v - n0.get(k, 0))
     for p in pools.check_log():
